@@ -130,7 +130,7 @@ impl Scenario for OrdSeq {
         "ordseq"
     }
     fn generate(&self, rng: &mut Rng, tier: Tier, _t: &str) -> OrdPlan {
-        let hash = *rng.pick(&[HashT::Fnv, HashT::Fnv, HashT::SimA, HashT::NoHash]);
+        let hash = *rng.pick(&[HashT::Fnv, HashT::Fnv, HashT::SimA, HashT::NoHash, HashT::Ident, HashT::Ident]);
         let big = tier == Tier::Thorough && rng.chance(0.02);
         let m = if rng.chance(0.1) { rng.range(1, 2) } else { rng.log_range(1, if big { 512 } else { 64 }) } as u32;
         let l = if rng.chance(0.4) { 1 } else { rng.urange(1, if big { 15 } else { 6 }) };
@@ -140,7 +140,7 @@ impl Scenario for OrdSeq {
             1 => rng.range(2, 20),
             _ => u64::MAX,
         };
-        let base = rng.u64() >> 8;
+        let base = if rng.chance(0.4) { rng.below(16) } else { rng.u64() >> 8 };
         let mut seq: Vec<u64> = vec![];
         while seq.len() < n {
             let e = if alphabet == u64::MAX { base.wrapping_add(seq.len() as u64 * rng.range(1, 9)) } else { base + rng.below(alphabet) };
@@ -182,6 +182,7 @@ impl Scenario for OrdSeq {
         match plan.hash {
             HashT::NoHash => exec::<NoHashHasher>(plan, ctx),
             HashT::SimA => exec::<SimA>(plan, ctx),
+            HashT::Ident => exec::<IdentHasher>(plan, ctx),
             _ => exec::<FnvHasher>(plan, ctx),
         }
     }
